@@ -181,9 +181,11 @@ def inverse_topology(outer, update, topology, inverse=None, multi_updates=True):
                             assoc_path(
                                 inverse, inner + (child,), child_update)
                         continue
-                    if isinstance(child_update, dict):
+                    if isinstance(child_update, dict) and '*' not in path:
                         # structural keys addressed to the child node
-                        # are routed to it, as the tuple form does
+                        # are routed to it, as the tuple form does (when
+                        # the sub-topology has a glob of its own, the
+                        # recursive call routes them)
                         structural = {
                             key: value
                             for key, value in child_update.items()
